@@ -305,7 +305,12 @@ func (d *ledgerDriver) call(e BEvent, args map[string]interface{}) error {
 	case "Slash":
 		o, id := e.str("o"), e.str("id")
 		infr := e.big("infr").Int64()
-		power := e.big("power").Int64()
+		// the infraction-time power is in USD like the operator's value, which scales with the amounts
+		pw := new(big.Int).Mul(e.big("power"), d.scale)
+		if !pw.IsInt64() || pw.Int64() > (1<<62) {
+			pw = big.NewInt(1 << 62)
+		}
+		power := pw.Int64()
 		// factor arrives in units of the generating model's PREC
 		f := new(big.Int).Mul(e.big("factor"), prec18)
 		f.Quo(f, big.NewInt(d.lc.ModelPrec))
